@@ -82,6 +82,43 @@ func widePrograms(maxAr int) []*Prog {
 	return out
 }
 
+// mergedVariants: the programs obtained by identifying two same-typed
+// variables of p (a repeated variable). The enumerated corpus gives every leaf
+// its own variable; these variants put the same variable on both operands of
+// an operator, which an engine that remembers fetched values would treat
+// differently.
+func mergedVariants(p *Prog) []*Prog {
+	var out []*Prog
+	for i := 0; i < len(p.Vars); i++ {
+		for j := i + 1; j < len(p.Vars); j++ {
+			if p.Vars[i].Ty != p.Vars[j].Ty {
+				continue
+			}
+			t := p.T.Clone()
+			t.Walk(func(n *term.Term) {
+				if n.K == term.KVar && n.Name == p.Vars[j].Name {
+					n.Name = p.Vars[i].Name
+				}
+			})
+			vars := append(append([]term.VarDecl{}, p.Vars[:j]...), p.Vars[j+1:]...)
+			out = append(out, &Prog{T: t, Vars: vars, Src: t.Src(), Size: p.Size})
+		}
+	}
+	return out
+}
+
+// withMerged appends the repeated-variable variants of every program of at
+// most maxSize nodes.
+func withMerged(progs []*Prog, maxSize int) []*Prog {
+	out := progs
+	for _, p := range progs {
+		if p.Size <= maxSize {
+			out = append(out, mergedVariants(p)...)
+		}
+	}
+	return out
+}
+
 // withAliases appends, for every program of at most aliasMax nodes, its two
 // alias spellings (&,|,!,eq,div / &&,||,==,add) when they differ.
 func withAliases(progs []*Prog, aliasMax int) []*Prog {
